@@ -243,6 +243,116 @@ theorem refLoop_spec (hR : ∀ s p, (cref s p).length = R) (hRpos : 0 < R)
         rw [hS1] at e
         rw [e, flatL, take_drop_append _ _ _ _ (by omega), hkflat]
 
+theorem kids_index (init : List T) (last : T) (pre : List T) (k : T) (post : List T)
+    (h : init ++ [last] = pre ++ k :: post) :
+    (pre.length = init.length ∧ k = last) ∨ (pre.length < init.length ∧ k ∈ init) := by
+  have hk : (pre ++ k :: post)[pre.length]? = some k := by simp
+  rw [← h] at hk
+  have hlen := congrArg List.length h
+  simp only [List.length_append, List.length_cons, List.length_nil] at hlen
+  by_cases hj : pre.length < init.length
+  · right
+    rw [List.getElem?_append_left hj] at hk
+    exact ⟨hj, List.mem_of_getElem? hk⟩
+  · left
+    have hje : pre.length = init.length := by omega
+    rw [hje] at hk
+    simp at hk
+    exact ⟨hje, hk.symm⟩
+
+/-- **The reader returns the requested slice of the content** on every well-formed tree whose
+    chunks the store holds: `readAtOffset` started on subtree `t` (covering `[cur, cur+size)`)
+    for `n` bytes at `off` writes `flat t [off-cur, off-cur+n)` at `bufferOffset` and nothing else,
+    and adds `n` to `bytesRead`. -/
+theorem readAtOffset_spec (hR : ∀ s p, (cref s p).length = R) (hRpos : 0 < R) (hBR : C / R = B)
+    (hB : 2 ≤ B) (hC : 1 ≤ C) :
+    ∀ (h : Nat) (t : T), WF C B h t → t.size < 2 ^ 64 → Holds cref get t →
+    ∀ fuel, h + 1 ≤ fuel → RecOk cref (readAtOffset get C R fuel) t := by
+  intro h
+  induction h with
+  | zero =>
+    intro t w _ _ fuel hf cur off bo n st h1 h2 h3
+    rw [WF] at w
+    obtain ⟨d, rfl, _⟩ := w
+    obtain ⟨f, rfl⟩ : ∃ f, fuel = f + 1 := ⟨fuel - 1, by omega⟩
+    simp only [T.payload, T.size, T.flat] at h2 ⊢
+    simp only [readAtOffset, Nat.le_refl, ↓reduceIte]
+    have e1 : ¬ off < cur := by omega
+    have e2 : ¬ d.length < off - cur := by omega
+    have e3 : ¬ n > d.length - (off - cur) := by omega
+    simp only [e1, e2, e3, ↓reduceIte]
+    have hbs : (d.take (off - cur + n)).drop (off - cur) = (d.drop (off - cur)).take n := by
+      rw [List.take_drop]
+    rw [hbs]
+    have hlen : ((d.drop (off - cur)).take n).length = n := by
+      simp only [List.length_take, List.length_drop]; omega
+    have e4 : ¬ st.mem.length < bo + n := by omega
+    simp only [hlen, e4, ↓reduceIte, splice]
+  | succ h ih =>
+    intro t w hsz hholds fuel hf
+    rcases WF_succ_cases C B h t w with w' | ⟨span, init, last, rfl, h1, h2, hinit, hlast, hpos, hle, hspan⟩
+    · exact ih t w' hsz hholds fuel (by omega)
+    · intro cur off bo n st c1 c2 c3
+      obtain ⟨f, rfl⟩ : ∃ f, fuel = f + 1 := ⟨fuel - 1, by omega⟩
+      have hB1 : 1 ≤ B := by omega
+      have hQ := node_span init last (C * B ^ h) (fun k hk => (hinit k hk).2)
+      simp only [T.size] at hsz c2 ⊢
+      simp only [T.payload, T.flat]
+      have hdlen : (refsL cref (init ++ [last])).length = R * (init.length + 1) := by
+        rw [refsL_length cref R hR]; simp
+      -- not a leaf: the span exceeds the payload length
+      have hRB : B * R ≤ C := by rw [← hBR]; exact Nat.div_mul_le_self C R
+      have hpow : C ≤ C * B ^ h := Nat.le_mul_of_pos_right _ (Nat.pow_pos (by omega))
+      have hQa : C * B ^ h ≤ init.length * (C * B ^ h) := Nat.le_mul_of_pos_left _ (by omega)
+      have hRa : R * (init.length + 1) ≤ B * R := by
+        rw [Nat.mul_comm B R]; exact Nat.mul_le_mul_left R h2
+      have hnotleaf : ¬ span ≤ (refsL cref (init ++ [last])).length := by
+        rw [hdlen, hspan, hQ]; omega
+      simp only [readAtOffset, hnotleaf, ↓reduceIte]
+      have hiter : ((refsL cref (init ++ [last])).length + R - 1) / R = (init ++ [last]).length := by
+        rw [hdlen]
+        simp only [List.length_append, List.length_cons, List.length_nil, Nat.zero_add]
+        apply Nat.div_eq_of_lt_le
+        · rw [Nat.mul_comm]; omega
+        · rw [Nat.add_mul, Nat.mul_comm R]; omega
+      rw [hiter]
+      have hkid : ∀ k ∈ init ++ [last], WF C B h k := by
+        intro k hk
+        rcases List.mem_append.mp hk with hk | hk
+        · exact (hinit k hk).1
+        · simp at hk; subst hk; exact hlast
+      have hsizes : ∀ k ∈ init ++ [last], k.size ≤ span := by
+        intro k hk; rw [hspan]; exact size_le_sum _ k hk
+      have := refLoop_spec cref get C R hR hRpos span (init ++ [last]) hsz hsizes
+        (fun k hk => (WF_flat_size C B hB1 h k (hkid k hk)).1)
+        (fun k hk => hholds _ (node_chunks_mem cref span _ k hk _ (chunks_head cref k)))
+        (readAtOffset get C R f)
+        (fun k hk => ih k (hkid k hk) (Nat.lt_of_le_of_lt (hsizes k hk) hsz)
+          (fun x hx => hholds x (node_chunks_mem cref span _ k hk x hx)) f (by omega))
+        (by
+          intro pre k post hk
+          rw [hdlen, hspan, hQ]
+          have := subtrieSection_spec C B R h init.length last.size pre.length hC hRpos hBR hB h1 hpos hle
+          rcases kids_index init last pre k post hk with ⟨e1, e2⟩ | ⟨e1, e2⟩
+          · rw [this (by omega)]; simp [e1, e2]
+          · rw [this (by omega)]
+            have : ¬ pre.length = init.length := by omega
+            simp [this, (hinit k e2).2])
+        (init ++ [last]) [] rfl cur off bo n st c1 (by rw [← hspan]; exact c2) c3
+      simpa using this
+
+/-- `joiner.New` on the root reference of a stored tree: span = size, root data = payload -/
+theorem new_spec (t : T) (hsz : t.size < 2 ^ 64) (hholds : Holds cref get t) :
+    new get (t.ref cref) = .ok { rootData := t.payload cref, span := t.size, off := 0, refLength := (t.ref cref).length } := by
+  unfold new
+  rw [hholds _ (chunks_head cref t)]
+  have hlen8 : ¬ (t.data cref).length < 8 := by
+    simp only [T.data, List.length_append, le64_length]; omega
+  have hspan : fromLe64 (t.data cref) = t.size := fromLe64_data t.size _ hsz
+  have hpl : (t.data cref).drop 8 = t.payload cref := by
+    simp only [T.data]; rw [List.drop_left' (le64_length _)]
+  simp only [hlen8, ↓reduceIte, hspan, hpl]
+
 end Reader
 
 end Aurora.Joiner
